@@ -84,18 +84,68 @@ def gen_graph(rng, family, nmax, exact=False):
         n = rng.range(1, 3)
         m = rng.range(0, 3)
         es = [(rng.below(n), rng.below(n)) + w() for _ in range(m)]
+    elif family == 'neartie':
+        # aimed at the relaxation comparison `v->d > u->d + w`: alternative routes whose lengths differ by 2^-k
+        # (k = 20..50), dyadic so every path length is exact in binary64 (all sums < 64, grain >= 2^-50 per gadget)
+        if rng.chance(1, 2):
+            # chain of triangles p-q (W) versus p-r-q (W/2 + W/2 -/+ 2^-k)
+            # exactness budget: (largest sum of two walk lengths) * 2^k < 2^53
+            k = rng.range(20, 50)
+            small = k > 45                      # k = 46..50: total length < 4, no other edges
+            t = rng.range(1, 2 if small else 3)
+            nodes, p = 1, 0
+            for _ in range(t):
+                r, q = nodes, nodes + 1
+                nodes += 2
+                wnum, wden = rng.choice([(1, 2), (1, 1)] if small else [(1, 2), (1, 1), (2, 1)])
+                sgn = rng.choice([-1, -1, 1])
+                K = 1 << k
+                half = (wnum * K) // (2 * wden)
+                es += [(p, q, wnum, wden), (p, r, half, K), (r, q, half + sgn, K)]
+                p = q
+            n = nodes + rng.range(0, 3)
+            for _ in range(0 if small else rng.range(0, 3)):
+                es.append((rng.below(n), rng.below(n), rng.range(8, 15), 1))
+            perm = rng.shuffle(list(range(n)))
+            es = [(perm[u], perm[v], a, b) if rng.chance(1, 2) else (perm[v], perm[u], a, b) for (u, v, a, b) in es]
+            es = rng.shuffle(es)
+        else:
+            # random graph, weights c + s*2^-k with one k per graph: many near-ties between multi-edge routes
+            n = rng.range(3, min(nmax, 12))
+            k = rng.range(20, 45)
+            K = 1 << k
+            m = rng.range(n, 3 * n)
+            es = [(rng.below(n), rng.below(n), rng.range(1, 4) * K + rng.choice([-1, 0, 0, 1, 2]), K) for _ in range(m)]
+    elif family == 'tinyw':
+        # every weight in [2^-40, 2^-20]
+        n = rng.range(2, min(nmax, 40))
+        m = rng.range(n, 3 * n)
+        es = [(rng.below(n), rng.below(n), rng.range(1, 1 << 20), 1 << 40) for _ in range(m)]
+    elif family == 'mixedmag':
+        # weights of order 1 and of order 2^-30 on the same routes
+        n = rng.range(2, min(nmax, 40))
+        m = rng.range(n, 3 * n)
+        es = [(rng.below(n), rng.below(n)) + ((rng.range(1, 8), 1) if rng.chance(1, 2) else (rng.range(1, 255), 1 << 30))
+              for _ in range(m)]
+    elif family == 'hugew':
+        # weights of order 2^30 (and a few small ones)
+        n = rng.range(2, min(nmax, 40))
+        m = rng.range(n, 3 * n)
+        es = [(rng.below(n), rng.below(n), rng.range(1, 255) * ((1 << 30) if rng.chance(4, 5) else 1), 1) for _ in range(m)]
     elif family == 'decimal':
         # not exactly representable weights: compared to 1e-9 relative only
         m = rng.range(n // 2, 2 * n)
-        es = [(rng.below(n), rng.below(n), rng.range(0, 500), rng.choice([3, 7, 10, 100])) for _ in range(m)]
+        scale = rng.choice([1, 1, 10 ** 6, 10 ** 9])   # also tiny magnitudes (1e-9 .. 1e-7): the criterion is relative
+        es = [(rng.below(n), rng.below(n), rng.range(0, 500), rng.choice([3, 7, 10, 100]) * scale) for _ in range(m)]
     return {'n': n, 'edges': [list(e) for e in es], 'weighted': weighted, 'family': family}
 
 
-S_FAMILIES = ['sparse', 'disconnected', 'multi', 'zero', 'dense', 'path', 'grid', 'unweighted', 'tiny', 'decimal']
+S_FAMILIES = ['sparse', 'disconnected', 'multi', 'zero', 'dense', 'path', 'grid', 'unweighted', 'tiny', 'decimal',
+              'neartie', 'tinyw', 'mixedmag', 'hugew']
 
 
-def gen_layout(rng, nmax):
-    fam = rng.choice(['sparse', 'disconnected', 'multi', 'path', 'unweighted', 'tiny'])
+def gen_layout(rng, nmax, fam=None, ideal=None):
+    fam = fam or rng.choice(['sparse', 'disconnected', 'multi', 'path', 'unweighted', 'tiny'])
     g = gen_graph(rng, fam, nmax)
     if g['weighted']:
         # non-positive ideal edge lengths (documented: replaced by 1)
@@ -107,7 +157,7 @@ def gen_layout(rng, nmax):
                 e[2] = -abs(e[2]) if e[2] else -3
             elif e[2] == 0:
                 e[2] = 1
-    g['ideal'] = list(rng.choice([(1, 1), (3, 2), (50, 1), (1, 4), (7, 1), (25, 2)]))
+    g['ideal'] = list(ideal or rng.choice([(1, 1), (3, 2), (50, 1), (1, 4), (7, 1), (25, 2), (1, 1024)]))
     g['family'] = 'layout-' + fam
     return g
 
@@ -225,7 +275,10 @@ def fmt(v):
     if v is None:
         return '-'
     if isinstance(v, Fraction):
-        return str(v.numerator) if v.denominator == 1 else '%d/%d' % (v.numerator, v.denominator)
+        if v.denominator == 1:
+            return str(v.numerator) if abs(v.numerator) < 10 ** 18 else '%d (~%.17g)' % (v.numerator, float(v))
+        t = '%d/%d' % (v.numerator, v.denominator)
+        return t if v.denominator < 10 ** 6 else '%s (~%.17g)' % (t, float(v))
     return str(v)
 
 
@@ -498,6 +551,11 @@ def shrink_graph(runner, g, kind, still_fails):
         cand = dict(g, n=len(used), edges=[[mp[e[0]], mp[e[1]], e[2], e[3]] for e in g['edges']])
         if still_fails(cand):
             g = cand
+    if not g['edges']:
+        for nn in (1, 2, 3):
+            if nn < g['n'] and still_fails(dict(g, n=nn)):
+                g = dict(g, n=nn)
+                break
     return g
 
 
@@ -575,7 +633,7 @@ def run(tier):
     per_family = 8 if quick else 14
     for fam in S_FAMILIES:
         r = rng.fork()
-        for k in range(per_family):
+        for k in range(per_family * (3 if fam == 'neartie' else 1)):
             cap = nmax if k == 0 else (24 if k % 2 else 60)
             if not quick and k == 0:
                 cap = 110
@@ -585,7 +643,11 @@ def run(tier):
     big = [('sparse', nmax), ('multi', nmax)] if quick else [('sparse', 300), ('multi', 200), ('disconnected', 260), ('grid', 225), ('zero', 150)]
     for fam, sz in big:
         sgraphs.append(gen_graph(r, fam, sz, exact=True))
-    lgraphs = [gen_layout(rng.fork(), 40 if quick else 90) for _ in range(24 if quick else 50)]
+    # always present: disconnected graphs with idealLength < 1, = 1, > 1 (the sentinel must not be scaled), then random
+    forced = [('disconnected', (1, 4)), ('disconnected', (50, 1)), ('disconnected', (1, 1)), ('multi', (1, 1024)),
+              ('unweighted', (1, 4)), ('sparse', (3, 2)), ('tiny', (1, 4))]
+    lgraphs = [gen_layout(rng.fork(), 30, fam, ideal) for fam, ideal in forced]
+    lgraphs += [gen_layout(rng.fork(), 40 if quick else 90) for _ in range(20 if quick else 50)]
     hcases = []
     r = rng.fork()
     for k in range(10 if quick else 30):
